@@ -693,7 +693,7 @@ func runRevisionLock(c *kit.Ctx) {
 		_, _ = pr.Reconcile(ctx, reconcile.Request{NamespacedName: types.NamespacedName{Name: "prov0-rev"}})
 		n := pcl.Calls()
 		for k := 0; k < n; k++ {
-			for _, out := range sim.AllFaults {
+			for _, out := range sim.EnumFaults {
 				name := fmt.Sprintf("revlock/fault/%s/k%d/%s", st, k, out)
 				if !c.Want(name) {
 					continue
